@@ -31,6 +31,13 @@ StoreFault == {<<st, NoFault>> : st \in Stores} \cup {<<"ack", f>> : f \in Fault
 ShortOf(q) == {[calls |-> q, gaps |-> g, hold |-> h, store |-> sf[1], fault |-> sf[2], long |-> 0] :
                  g \in GapSeqs(Len(q)), h \in Holds, sf \in StoreFault}
 Short == UNION {ShortOf(q) : q \in CallSeqs}
+\* a peer that never answers: the lookups of calls made together end by TIMEOUT, in the same tick (several lookups finish,
+\* several puts start, several callers are released in one tick)
+Together == {<<"putA1", "putB">>, <<"putB", "putA1">>, <<"getA1", "putB">>, <<"putA1", "getB">>, <<"putA1", "putB", "getA1">>,
+             <<"putB", "putA1", "fnA">>, <<"fnA", "fnB">>, <<"putA1", "putA1b", "putB">>}
+ShortSilent == {[calls |-> q, gaps |-> g, hold |-> [a |-> 0, b |-> FALSE], store |-> st, fault |-> NoFault, long |-> 0, silent |-> z] :
+                  q \in Together, g \in {<<0>>, <<30>>, <<0, 0>>, <<0, 30>>, <<30, 0>>}, st \in {"ack", "e301_p1", "drop_p1"},
+                  z \in {{"p1"}, {"p2"}, {"p3"}, {"p1", "p3"}}}
 Valid(p) == Len(p.gaps) = Len(p.calls) - 1
 \* long plans: silent = the peers that stop answering at the start; calls are made at minute 2 (gap = later calls)
 Long == {[calls |-> q, gaps |-> g, hold |-> [a |-> 0, b |-> FALSE], store |-> "ack", fault |-> NoFault, long |-> m, silent |-> z] :
@@ -41,4 +48,5 @@ Init == x = 0
 Next == UNCHANGED x
 Spec == Init /\ [][Next]_x
 Emit == PrintT(<<"GEN", ToJson({p \in Short : Valid(p)})>>) /\ PrintT(<<"GEN", ToJson({p \in Long : LValid(p)})>>)
+        /\ PrintT(<<"GEN", ToJson({p \in ShortSilent : Valid(p)})>>)
 =============================================================================
